@@ -106,10 +106,48 @@ def verify_parse_contract(ctx, crate):
             ctx.check(canon, "O8:canonical:" + C.fkey(h), "%s returns Some(x) only if x.to_string() == s (canonical decimal)" % C.short(h.id),
                       "%s turns text into a number without requiring the text to be the canonical decimal of the number: \"01\", \"+1\" and \"1\" denote the same slot (names not injective, printing does not invert parsing)" % C.short(h.id), where_of(h))
             out[h.id] = bound if canon else None
+        elif "Option<u32>" in h.local_ty(0) and not uses_direct and _filter_contract(crate, h) is not None:
+            bound, canon = _filter_contract(crate, h)
+            ctx.check(bound is not None and bound <= B30, "O8:bound:" + C.fkey(h), "%s returns Some(x) only for x < %s (filter predicate)" % (C.short(h.id), bound),
+                      "%s can return Some(x) without an upper bound <= 2^30 on x" % C.short(h.id), where_of(h))
+            ctx.check(canon, "O8:canonical:" + C.fkey(h), "%s returns Some(x) only if x.to_string() == s (filter predicate)" % C.short(h.id),
+                      "%s turns text into a number without requiring the text to be the canonical decimal of the number" % C.short(h.id), where_of(h))
+            out[h.id] = bound if canon else None
         else:
             # the number is used directly by a Slot constructor function: needs the same two guards at the construction
             ctx.bad("O8:unguarded-parse:" + C.fkey(h), "%s parses a u32 from text and builds a slot from it without a canonical-form / range helper" % C.short(h.id), where_of(h))
     return out
+
+
+def _filter_contract(crate, h):
+    """`s.parse::<u32>().ok().filter(|x| *x < BOUND && x.to_string() == s)`: (bound, canonical?) read off the filter predicate"""
+    r = strip_role(h.role_of_local(0))
+    if not (isinstance(r, tuple) and r[0] == "call" and r[1] == "filter" and len(r[3]) == 2 and role_mentions_call(r[3][0], "parse")):
+        return None
+    cl = C._closure_of_role(crate, r[3][1])
+    if not hasattr(cl, "calls"):
+        return None
+    bound = None
+    canon = False
+    # the predicate's value: false, or (under x < BOUND) the comparison to_string(x) == s
+    ok_shape = True
+    for d in cl.defs().get(0, []):
+        if d["kind"] == "assign" and C.const_bool(d["rv"]) is False:
+            continue
+        rr = cl.role_of_rvalue(d["rv"]) if d["kind"] == "assign" else ("call", d["call"].callee.name if d["call"].callee else "?", "", [cl.role_of_operand(a) for a in d["call"].args], d["bb"])
+        txt = role_str(rr)
+        if "to_string(" in txt and (txt.startswith("eq(") or "eq(" in txt):
+            canon = True
+            for e, cond in C.conditions_at(cl, d["bb"]):
+                if cond[0] == "true" and isinstance(cond[1], tuple) and cond[1][0] == "bin" and cond[1][1] == "Lt":
+                    rhs = cond[1][3]
+                    if rhs[0] == "bin" and rhs[1] == "Shl" and rhs[2][0] == "const" and rhs[3][0] == "const":
+                        bound = int(re.sub(r"_.*", "", rhs[2][1])) << int(re.sub(r"_.*", "", rhs[3][1]))
+                    elif rhs[0] == "const":
+                        bound = int(re.sub(r"_.*", "", rhs[1]))
+        else:
+            ok_shape = False
+    return (bound, canon and ok_shape)
 
 
 def make_model(crate, parse_bounds, counter):
@@ -130,6 +168,45 @@ def make_model(crate, parse_bounds, counter):
             return [(Aff(Base("L", 0, (1 << 30) - 1, None), 1, 0), None)]
         if name == "starts_with":
             return [(Opaque("starts_with"), None)]
+        if name == "replace" and args and isinstance(args[0], Opaque) and str(args[0].what).startswith("ref:"):
+            # std::mem::replace(&mut tab.field, new): returns the old value, stores the new one
+            key = str(args[0].what)[4:].split(".")[-1]
+            old_v = st["mem"].get(key, Opaque("mem:" + key))
+            st["mem"][key] = args[1]
+            st["events"].append(("store", key, args[1], list(st["conds"])))
+            return [(old_v, None)]
+        if name in ("copied", "cloned") and args:
+            return [(args[0], None)]
+        if name == "and_then" and len(args) == 2 and term is not None:
+            f = term["args"][1]
+            fname = f.get("name") if f.get("k") == "const" else None
+            if fname in helper_names:
+                inner = model(fname, [Opaque("text")], st, None)
+                if isinstance(args[0], tuple) and args[0][0] == "variant":
+                    return inner if args[0][1] == 1 else [(("variant", 0, None), None)]
+                return inner + [(("variant", 0, None), ("bool", Opaque("and_then:none"), None))]
+        if name == "filter" and len(args) == 2 and isinstance(args[1], tuple) and args[1][0] == "closure":
+            opt = args[0]
+            if isinstance(opt, tuple) and opt[0] == "variant" and opt[1] == 0:
+                return [(opt, None)]
+            if isinstance(opt, tuple) and opt[0] == "variant" and opt[1] == 1:
+                cb = crate.bodies.get(args[1][1])
+                if cb is not None:
+                    pv = {1: ("upvars", {i: v for i, v in enumerate(args[1][2])}), 2: opt[2]}
+                    sub = Exec(cb, model, mem_init=dict(st["mem"]), param_vals=pv, max_paths=50)
+                    alts = []
+                    for p_ in sub.run():
+                        r_ = p_.ret
+                        if isinstance(r_, tuple) and r_[0] == "cmp":
+                            alts.append((opt, ("and", list(p_.conds) + [("cmp", r_[1], r_[2], r_[3], True)])))
+                            alts.append((("variant", 0, None), ("and", list(p_.conds) + [("cmp", r_[1], r_[2], r_[3], False)])))
+                        elif isinstance(r_, Aff) and r_.base is None:
+                            alts.append(((opt if r_.c else ("variant", 0, None)), ("and", list(p_.conds))))
+                        else:
+                            alts.append((opt, ("and", list(p_.conds) + [("bool", r_, True)])))
+                            alts.append((("variant", 0, None), ("and", list(p_.conds) + [("bool", r_, False)])))
+                    if alts:
+                        return alts
         if name == "branch" and args and isinstance(args[0], tuple) and args[0][0] == "variant":
             # `?` on an Option: Some(v) -> ControlFlow::Continue(v) (variant 0), None -> ControlFlow::Break (variant 1)
             return [(("variant", 0, args[0][2]), None)] if args[0][1] == 1 else [(("variant", 1, None), None)]
